@@ -90,7 +90,7 @@ pub const SHAPES: &[&str] = &[
     "sorted", "reversed", "all_equal", "two_alternating", "two_halves", "three_keys", "organ_pipe",
     "saw2", "saw3", "saw5", "saw7", "saw16", "swap_ends", "swap_mid", "one_low_at_end",
     "median3_killer", "runs127", "runs128", "runs129", "lcg_shuffle", "lcg_few_keys", "sorted_dups",
-    "antiqsort",
+    "antiqsort", "low_pivot", "high_pivot",
 ];
 
 /// McIlroy's "killer adversary for quicksort": the comparator decides the values lazily so that
@@ -229,6 +229,25 @@ pub fn shape(name: &str, n: usize) -> Vec<u32> {
                 })
                 .collect()
         }
+        "low_pivot" | "high_pivot" => {
+            // a shuffled permutation whose nine pivot-candidate positions (len/4, len/2, 3len/4, each
+            // +-1) hold nine adjacent values near one end: the first partition is very uneven, so one
+            // half of the first parallel split is sorted without ever looking at the flag while the
+            // other half still has splits that do
+            let mut v = shape("lcg_shuffle", n);
+            if n >= 64 {
+                let first = if name == "low_pivot" { n32 / 10 } else { n32 - n32 / 10 - 9 };
+                let mut val = first;
+                for q in [n / 4, n / 4 * 2, n / 4 * 3] {
+                    for pos in [q - 1, q, q + 1] {
+                        let at = v.iter().position(|&x| x == val).unwrap();
+                        v.swap(pos, at);
+                        val += 1;
+                    }
+                }
+            }
+            v
+        }
         "sorted_dups" => (0..n32).map(|i| i / 3).collect(),
         "antiqsort" => antiqsort_input(n),
         _ => unreachable!(),
@@ -350,12 +369,18 @@ pub fn run(tier: &str) -> ! {
     eprintln!("[C18] shapes done {:.1}s", rep.start.elapsed().as_secs_f64());
 
     // (c) every cancel moment on a one-thread pool
-    let cancel_lengths: Vec<usize> = if thorough { vec![2001, 2600, 4100, 5000, 8192] } else { vec![2001, 2600, 4100] };
-    let cancel_shapes = ["lcg_shuffle", "organ_pipe", "lcg_few_keys", "reversed"];
+    let cancel_lengths: Vec<usize> = if thorough { vec![2001, 2600, 4100, 5000, 8192, 12000] } else { vec![2001, 2600, 4100, 5200] };
+    // quick tier: the uneven-first-partition shapes only at the length where they differ from a
+    // plain shuffle (a half above the sequential threshold that splits again), the others below it
+    let wanted = |sh: &str, n: usize| thorough || (sh.ends_with("_pivot")) == (n == 5200);
+    let cancel_shapes = ["lcg_shuffle", "organ_pipe", "lcg_few_keys", "reversed", "low_pivot", "high_pivot"];
     let mut cancel_jobs: Vec<(usize, &str, u64, u64)> = Vec::new(); // (len, shape, k_lo, k_hi)
     let mut cancel_total = 0u64;
     for &n in &cancel_lengths {
         for sh in cancel_shapes {
+            if !wanted(sh, n) {
+                continue;
+            }
             let input = tagged(&shape(sh, n));
             let total = sort_once(Some(&pool(1)), &input, None).comparisons;
             cancel_total += total + 2;
@@ -457,7 +482,7 @@ pub fn run(tier: &str) -> ! {
     rep.acc.traces = rep.acc.transitions;
     rep.exhaustive = false;
     rep.bound = format!(
-        "all key sequences over 4 keys of length <= 9 and all permutations of length <= 8; {} shapes at every length 0..=2600, 4000..=4100 and {} larger lengths; every comparator-call index as cancel moment for {} shapes x lengths {:?} on a one-thread pool; thread counts 1/2/4/8 on 20 inputs",
+        "all key sequences over 4 keys of length <= 9 and all permutations of length <= 8; {} shapes at every length 0..=2600, 4000..=4100 and {} larger lengths; every comparator-call index as cancel moment for {} shapes x lengths {:?} (quick tier: the two uneven-pivot shapes at 5200 only, the other shapes at the smaller lengths) on a one-thread pool; thread counts 1/2/4/8 on 20 inputs",
         SHAPES.len(), if thorough { 4 } else { 2 }, cancel_shapes.len(), cancel_lengths
     );
     rep.rule = "small inputs: complete; shapes: every length x fixed deterministic shape family; cancel: every k in 0..=comparisons+1; non-trivial = unsorted input / shape case / cancellation observed".into();
